@@ -35,7 +35,7 @@ from ..type.definition import (
 
 __all__ = ["default_scalar_value_to_literal", "value_to_literal"]
 
-_re_integer_string = re.compile("^-?(?:0|[1-9][0-9]*)$")
+_re_integer_string = re.compile(r"^-?(?:0|[1-9][0-9]*)\Z")
 
 
 def value_to_literal(value: Any, type_: GraphQLInputType) -> ConstValueNode | None:
